@@ -63,17 +63,21 @@ func NewRedundantWhitespaceRule() *RedundantWhitespaceRule {
 
 // Check performs the redundant whitespace check on SQL content.
 //
-// Extracts non-string portions of each line and searches for sequences of 2+ spaces
-// using regex pattern matching. Leading whitespace (indentation) is skipped. For
-// each match, a violation is reported.
+// Extracts the code portions of each line (outside string literals, quoted identifiers
+// and comments, as classified by linter.LexMap over the whole text) and searches them
+// for sequences of 2+ spaces using regex pattern matching. Leading whitespace
+// (indentation) is skipped. For each match, a violation is reported.
 //
 // Returns a slice of violations (one per redundant whitespace sequence) and nil error.
 func (r *RedundantWhitespaceRule) Check(ctx *linter.Context) ([]linter.Violation, error) {
 	violations := []linter.Violation{}
 
+	m := linter.LexMap(strings.Join(ctx.Lines, "\n"))
+	off := 0
 	for lineNum, line := range ctx.Lines {
-		// Skip checking inside string literals - we'll check the non-string parts
-		parts := extractNonStringParts(line)
+		// Skip checking inside literals and comments - we check the code parts
+		parts := codeParts(line, m[off:off+len(line)])
+		off += len(line) + 1
 
 		for _, part := range parts {
 			// Check for multiple consecutive spaces (not at line start - indentation)
@@ -85,7 +89,7 @@ func (r *RedundantWhitespaceRule) Check(ctx *linter.Context) ([]linter.Violation
 				// Skip leading indentation: everything up to and including the first space of
 				// the run is blank. The run need not start the line ("\t  x" is indentation
 				// too, and Fix preserves it).
-				if column <= len(line) && strings.TrimLeft(line[:column], " \t") == "" {
+				if strings.TrimLeft(line[:column], " \t") == "" {
 					continue
 				}
 
@@ -106,149 +110,88 @@ func (r *RedundantWhitespaceRule) Check(ctx *linter.Context) ([]linter.Violation
 	return violations, nil
 }
 
-// linePart represents a non-string portion of a line with its position.
+// linePart represents a code portion of a line with its position.
 type linePart struct {
 	text     string
 	startCol int // 0-indexed position in original line
 }
 
-// extractNonStringParts extracts parts of a line outside of string literals.
-//
-// Parses the line character by character, tracking single and double quoted strings
-// and back-quoted identifiers.
-// Returns slices of text that are not inside quotes, along with their starting
-// column positions in the original line.
-//
-// This ensures redundant whitespace inside strings like 'multiple  spaces' is
-// preserved and not flagged as violations.
+// extractNonStringParts extracts the parts of a stand-alone line that are code: outside
+// string literals, quoted identifiers and comments.
 func extractNonStringParts(line string) []linePart {
+	return codeParts(line, linter.LexMap(line))
+}
+
+// codeParts returns the maximal runs of code bytes of line, along with their starting
+// column positions. m holds the lexical class of every byte of the line, so that a line
+// inside a multi-line string literal or block comment has no code part, and spaces inside
+// literals like 'multiple  spaces' or inside comments are never flagged.
+func codeParts(line string, m []linter.LexClass) []linePart {
 	parts := []linePart{}
-	inString := false
-	stringChar := rune(0)
-	partStart := 0
-	currentPart := strings.Builder{}
-
-	for i, ch := range line {
-		// A line comment ends the code on this line: spacing inside it is not checked
-		if !inString && ch == '-' && strings.HasPrefix(line[i:], "--") {
-			break
-		}
-
-		if !inString && (ch == '\'' || ch == '"' || ch == '`') {
-			// Save current non-string part
-			if currentPart.Len() > 0 {
-				parts = append(parts, linePart{
-					text:     currentPart.String(),
-					startCol: partStart,
-				})
-				currentPart.Reset()
+	start := -1
+	for i := 0; i < len(line); i++ {
+		if m[i] == linter.LexCode {
+			if start < 0 {
+				start = i
 			}
-			inString = true
-			stringChar = ch
-			continue
+		} else if start >= 0 {
+			parts = append(parts, linePart{text: line[start:i], startCol: start})
+			start = -1
 		}
-
-		if inString {
-			if ch == stringChar {
-				inString = false
-				stringChar = 0
-				partStart = i + 1
-			}
-			continue
-		}
-
-		if currentPart.Len() == 0 {
-			partStart = i
-		}
-		currentPart.WriteRune(ch)
 	}
-
-	// Add final part
-	if currentPart.Len() > 0 {
-		parts = append(parts, linePart{
-			text:     currentPart.String(),
-			startCol: partStart,
-		})
+	if start >= 0 {
+		parts = append(parts, linePart{text: line[start:], startCol: start})
 	}
-
 	return parts
 }
 
 // Fix removes redundant whitespace from SQL content.
 //
-// Processes content line by line, reducing multiple consecutive spaces to single
-// spaces while preserving leading indentation and spaces inside string literals.
+// Processes content line by line, reducing multiple consecutive spaces of code to single
+// spaces while preserving leading indentation. The content of string literals, quoted
+// identifiers and comments (also when they span several lines) is copied unchanged.
 //
 // Returns the fixed content with redundant whitespace removed, and nil error.
 func (r *RedundantWhitespaceRule) Fix(content string, violations []linter.Violation) (string, error) {
 	lines := strings.Split(content, "\n")
+	m := linter.LexMap(content)
 
+	off := 0
 	for i, line := range lines {
-		lines[i] = r.fixLine(line)
+		lines[i] = r.fixLine(line, m[off:off+len(line)])
+		off += len(line) + 1
 	}
 
 	return strings.Join(lines, "\n"), nil
 }
 
-// fixLine reduces multiple spaces to single space in a line.
+// fixLine reduces multiple spaces of code to a single space in a line.
 //
-// Preserves leading whitespace (indentation) and spaces inside string literals
-// (both single and double quoted). Uses state machine to track whether currently
-// inside a string.
+// Preserves leading whitespace (indentation) and every byte that is not code: m holds
+// the lexical class of every byte of the line.
 //
 // Returns the fixed line with redundant whitespace removed.
-func (r *RedundantWhitespaceRule) fixLine(line string) string {
+func (r *RedundantWhitespaceRule) fixLine(line string, m []linter.LexClass) string {
 	// Preserve leading whitespace (indentation)
-	leading := ""
-	trimmed := line
-	for i, ch := range line {
-		if ch != ' ' && ch != '\t' {
-			leading = line[:i]
-			trimmed = line[i:]
-			break
-		}
+	lead := 0
+	for lead < len(line) && (line[lead] == ' ' || line[lead] == '\t') && m[lead] == linter.LexCode {
+		lead++
 	}
 
-	// Process the rest of the line, preserving strings
 	result := strings.Builder{}
-	result.WriteString(leading)
+	result.Grow(len(line))
+	result.WriteString(line[:lead])
 
-	inString := false
-	stringChar := rune(0)
 	prevSpace := false
-
-	for i, ch := range trimmed {
-		// A line comment ends the code on this line: its text is copied unchanged
-		if !inString && ch == '-' && strings.HasPrefix(trimmed[i:], "--") {
-			result.WriteString(trimmed[i:])
-			break
-		}
-
-		if !inString && (ch == '\'' || ch == '"' || ch == '`') {
-			inString = true
-			stringChar = ch
-			result.WriteRune(ch)
-			prevSpace = false
-			continue
-		}
-
-		if inString {
-			result.WriteRune(ch)
-			if ch == stringChar {
-				inString = false
-				stringChar = 0
-			}
-			continue
-		}
-
+	for i := lead; i < len(line); i++ {
 		// Reduce multiple spaces to single space
-		if ch == ' ' {
+		if line[i] == ' ' && m[i] == linter.LexCode {
 			if !prevSpace {
-				result.WriteRune(ch)
+				result.WriteByte(' ')
 			}
 			prevSpace = true
 		} else {
-			result.WriteRune(ch)
+			result.WriteByte(line[i])
 			prevSpace = false
 		}
 	}
